@@ -1,4 +1,4 @@
 ---- MODULE RouterTraceMC ----
 EXTENDS RouterTrace
-NamesABC == {"a", "b", "c"}
+NamesABC == {"a", "b", "c", "ab"}
 ====
